@@ -484,6 +484,25 @@ func run(t vtype, h hist) (res result) {
 				refTxn[o.Key] = tk
 			}
 			res.kinds["insert"]++
+		case "insbig":
+			// a value whose encoding exceeds util.MPTMaxAllowableNodeSize: the trie rejects it
+			cop = fmt.Sprintf("SInsertRej %d", o.Key)
+			v, _ := gen(t, vh.NewRand(o.Seed))
+			if !inflate(t, v) {
+				panic("cannot build an oversized " + t.name)
+			}
+			if _, err := ctx.InsertTrieNode(keyName(o.Key), v); err != nil {
+				out = "SOErr"
+				res.kinds["insert-rejected"]++
+			} else {
+				res.kinds["insert-oversized-accepted"]++
+				c, err := canon(t, v)
+				if err != nil {
+					panic(err)
+				}
+				handles = append(handles, v)
+				refTxn[o.Key] = tok(dumpOf(c))
+			}
 		case "insh":
 			cop = fmt.Sprintf("SInsertH %d %s", o.Key, vh.Nat(o.I))
 			if o.I >= len(handles) {
@@ -661,6 +680,12 @@ func genAlias(t vtype, r *vh.Rand) hist {
 	h.Ops = append(h.Ops, op{K: "mut", I: 3}, op{K: "dtxn"}, op{K: "get", Key: 0}, op{K: "mut", I: 4})            // 4
 	h.Ops = append(h.Ops, op{K: "ctxn"}, op{K: "cblk"}, op{K: "get", Key: 0}, op{K: "mut", I: 5}, op{K: "get", Key: 0}) // 5,6
 	h.Ops = append(h.Ops, op{K: "insh", Key: 1, I: 5}, op{K: "mut", I: 5}, op{K: "get", Key: 1}, op{K: "dtxn"}, op{K: "get", Key: 1}, op{K: "get", Key: 0})
+	if inflatable[t.name] {
+		// an insert the trie rejects must leave no value behind, neither in this transaction's
+		// cache nor (after a commit of the transaction cache) in the block cache
+		h.Ops = append(h.Ops, op{K: "insbig", Key: 0, Seed: 7}, op{K: "get", Key: 0}, op{K: "insbig", Key: 2, Seed: 8}, op{K: "get", Key: 2},
+			op{K: "ctxn"}, op{K: "get", Key: 0}, op{K: "get", Key: 2})
+	}
 	h.Ops = append(h.Ops, op{K: "del", Key: 0}, op{K: "get", Key: 0}, op{K: "dtxn"}, op{K: "get", Key: 0}, op{K: "del", Key: 0}, op{K: "ctxn"}, op{K: "get", Key: 0}, op{K: "dblk"}, op{K: "get", Key: 0})
 	return h
 }
@@ -686,7 +711,7 @@ func main() {
 	sc.Init()
 	rep := vh.NewReport("statecache", "C07", o)
 	rep.Rule = "per cacheable type (every type with a CopyFrom method in the tree): histories of get/insert/insert-held/delete/deep in-place " +
-		"mutation of held objects/commit and discard of transactions and blocks over real caches and tries, plus a fixed aliasing pattern; " +
+		"mutation of held objects/inserts the trie rejects (encoding > MPTMaxAllowableNodeSize)/commit and discard of transactions and blocks over real caches and tries, plus a fixed aliasing pattern; " +
 		"non-trivial = at least one read served a present value, one held object was mutated (>= 1 field/element overwritten), one transaction was " +
 		"discarded and one committed; distinct by type and full op list"
 	cf := &vh.CasesFile{Imports: []string{"Base.Corr", "Model.StateCache", "Corr.StateCache"}, CaseType: "sc_case", CheckFn: "sc_check", Shard: 150}
@@ -769,7 +794,9 @@ func main() {
 	for _, t := range vtypes {
 		// how rich are the generated instances
 		_, depth := gen(t, vh.NewRand(1))
-		rep.Note("%s: instances filled to depth %d", t.name, depth)
+		probe, _ := gen(t, vh.NewRand(2))
+		inflatable[t.name] = inflate(t, probe)
+		rep.Note("%s: instances filled to depth %d; oversized (trie-rejected) instances: %v", t.name, depth, inflatable[t.name])
 		for i := 0; i < o.N(3, 20); i++ {
 			handle(genAlias(t, rnd))
 		}
